@@ -23,6 +23,100 @@ use std::marker::PhantomData;
 use std::panic::{catch_unwind, AssertUnwindSafe};
 
 // ---------------------------------------------------------------------------
+// two more toy fields, declared here: small subgroups q^2 with q = 5 and q = 7, so that the q-ary merge pass
+// of the mixed-radix transform runs twice with q > 3 (the generated toy fields have q = 3, or q = 5 with k = 1)
+//   401 - 1 = 2^4 * 5^2, smallest primitive root 3;   197 - 1 = 2^2 * 7^2, smallest primitive root 2
+// (primality, the factorisations and the primitive roots are re-verified at start-up, see `validate_extra_fields`)
+// ---------------------------------------------------------------------------
+mod extra_fields {
+    #![allow(non_camel_case_types, dead_code)]
+    use ark_ff::fields::{Fp, MontBackend, MontConfig};
+
+    #[derive(ark_ff::MontConfig)]
+    #[modulus = "401"]
+    #[generator = "3"]
+    #[small_subgroup_base = "5"]
+    #[small_subgroup_power = "2"]
+    pub struct D401Cfg;
+    pub type D401 = Fp<MontBackend<D401Cfg, 1>, 1>;
+
+    #[derive(ark_ff::MontConfig)]
+    #[modulus = "197"]
+    #[generator = "2"]
+    #[small_subgroup_base = "7"]
+    #[small_subgroup_power = "2"]
+    pub struct D197Cfg;
+    pub type D197 = Fp<MontBackend<D197Cfg, 1>, 1>;
+}
+use extra_fields::{D197, D401};
+
+fn validate_extra_fields(ctx: &mut Ctx) {
+    fn one<F: PrimeField + FftField>(ctx: &mut Ctx, p: u64, two: u32, q: u64, k: u32, g: u64) {
+        let powmod = |b: u64, mut e: u64| {
+            let (mut r, mut b) = (1u64, b % p);
+            while e > 0 {
+                if e & 1 == 1 {
+                    r = r * b % p;
+                }
+                b = b * b % p;
+                e >>= 1;
+            }
+            r
+        };
+        ctx.validate(F::MODULUS.as_ref() == [p] && (2..p).all(|d| p % d != 0), &format!("D{p}: modulus {p} is prime"));
+        ctx.validate(p - 1 == (1u64 << two) * q.pow(k) && (2..q).all(|d| q % d != 0), &format!("D{p}: p-1 = 2^{two} * {q}^{k} with {q} prime"));
+        ctx.validate(
+            F::TWO_ADICITY == two && F::SMALL_SUBGROUP_BASE == Some(q as u32) && F::SMALL_SUBGROUP_BASE_ADICITY == Some(k),
+            &format!("D{p}: derived TWO_ADICITY / SMALL_SUBGROUP_BASE / SMALL_SUBGROUP_BASE_ADICITY are {two} / {q} / {k}"),
+        );
+        ctx.validate(F::GENERATOR.into_bigint().as_ref() == [g] && powmod(g, (p - 1) / 2) != 1 && powmod(g, (p - 1) / q) != 1 && powmod(g, p - 1) == 1, &format!("D{p}: generator {g} is a primitive root"));
+        // the configured large-subgroup root has order exactly p-1 = 2^two * q^k
+        let r = F::LARGE_SUBGROUP_ROOT_OF_UNITY.map(|r| r.into_bigint().as_ref()[0]);
+        ctx.validate(r.is_some_and(|r| powmod(r, p - 1) == 1 && powmod(r, (p - 1) / 2) != 1 && powmod(r, (p - 1) / q) != 1), &format!("D{p}: LARGE_SUBGROUP_ROOT_OF_UNITY has order {}", p - 1));
+    }
+    one::<D401>(ctx, 401, 4, 5, 2, 3);
+    one::<D197>(ctx, 197, 2, 7, 2, 2);
+}
+
+// ---------------------------------------------------------------------------
+// the harness's copies of the library's transform thresholds (they only LABEL cases) are compared with the
+// constants in the library source the harness is built against; a stale copy is a machinery error
+// ---------------------------------------------------------------------------
+const H_DEGREE_AWARE_FACTOR: u64 = 4;
+const H_MIN_NUM_CHUNKS_FOR_COMPACTION: u64 = 128;
+const H_MIN_INPUT_SIZE_FOR_PARALLELIZATION: u64 = 1024;
+
+fn validate_threshold_copies(ctx: &mut Ctx) {
+    let root = std::env::var("VERIF_REPO_OVERRIDE").unwrap_or_else(|_| "/repo".to_string());
+    fn read_const(text: &str, name: &str) -> Option<u64> {
+        // `const NAME: usize = <int>;` or `= 1 << <int>;`
+        for l in text.lines() {
+            let t = l.trim();
+            let Some(rest) = t.strip_prefix("pub(crate) const ").or_else(|| t.strip_prefix("pub const ")).or_else(|| t.strip_prefix("const ")) else { continue };
+            let Some(rest) = rest.strip_prefix(name) else { continue };
+            if !rest.trim_start().starts_with(':') {
+                continue;
+            }
+            let expr = rest.split('=').nth(1)?.trim().trim_end_matches(';').trim();
+            let num = |x: &str| x.trim().replace('_', "").parse::<u64>().ok();
+            return match expr.split_once("<<") {
+                Some((a, b)) => Some(num(a)? << num(b)?),
+                None => num(expr),
+            };
+        }
+        None
+    }
+    for (file, name, copy) in [
+        ("poly/src/domain/radix2/mod.rs", "DEGREE_AWARE_FFT_THRESHOLD_FACTOR", H_DEGREE_AWARE_FACTOR),
+        ("poly/src/domain/radix2/fft.rs", "MIN_NUM_CHUNKS_FOR_COMPACTION", H_MIN_NUM_CHUNKS_FOR_COMPACTION),
+        ("poly/src/domain/radix2/fft.rs", "MIN_INPUT_SIZE_FOR_PARALLELIZATION", H_MIN_INPUT_SIZE_FOR_PARALLELIZATION),
+    ] {
+        let got = std::fs::read_to_string(format!("{root}/{file}")).ok().and_then(|t| read_const(&t, name));
+        ctx.validate(got == Some(copy), &format!("harness copy of {name} ({copy}) equals the constant in {root}/{file} (read: {got:?}); the branch-class labels fft:degree_aware / roots:compaction / size>MIN_INPUT_SIZE_FOR_PARALLELIZATION depend on it"));
+    }
+}
+
+// ---------------------------------------------------------------------------
 // reference arithmetic
 // ---------------------------------------------------------------------------
 trait Mdl<F>: Sync + Send {
@@ -359,19 +453,22 @@ fn label_transform<F, M: Mdl<F>>(loc: &mut Loc, env: &Env<F, M>, kind: Kind, siz
     loc.class_if(l as u64 == size, "len=size");
     loc.class_if(off != 0, "coset");
     if env.fi.is_r2_variant(kind, size) {
-        if (l as u64) * 4 <= size {
+        if (l as u64) * H_DEGREE_AWARE_FACTOR <= size {
             loc.class("fft:degree_aware");
             loc.class_if(!l.is_power_of_two(), "fft:degree_aware_len_not_pow2");
         } else {
             loc.class("fft:in_order");
         }
-        loc.class_if(size >= 256, "roots:compaction");
-        loc.class_if(size > 1024, "size>MIN_INPUT_SIZE_FOR_PARALLELIZATION");
+        // first butterfly pass: gap = 1, num_chunks = size / 2
+        loc.class_if(size / 2 >= H_MIN_NUM_CHUNKS_FOR_COMPACTION, "roots:compaction");
+        loc.class_if(size > H_MIN_INPUT_SIZE_FOR_PARALLELIZATION, "size>MIN_INPUT_SIZE_FOR_PARALLELIZATION");
     } else {
         let (two, qa) = env.fi.adicity(size);
         loc.class_if(qa > 0 && two > 0, "mixed:q_adicity>0∧two_adicity>0");
         loc.class_if(qa > 0 && two == 0, "mixed:pure_q");
         loc.class_if(qa == 0, "mixed:pure_2");
+        loc.class_if(qa >= 2 && env.fi.q == Some(5), "mixed:q=5_two_q_passes");
+        loc.class_if(qa >= 2 && env.fi.q == Some(7), "mixed:q=7_two_q_passes");
     }
 }
 
@@ -404,16 +501,23 @@ fn sweep_new<F: PrimeField + FftField, M: Mdl<F>, D: EvaluationDomain<F> + Send 
         if loc.sampling() {
             loc.sample(format!("{} {}::new({n}) want size {want:?}", fi.name, kind.name()));
         }
+        // a general domain is "minimal for its kind" when it is the minimal radix-2 OR the minimal mixed-radix
+        // domain (the library documents and today implements: radix-2 whenever one fits); `want` is the documented
+        // choice, `alt` the other admissible one
+        let alt = if kind == Kind::General && want.is_some() { min_ge(&fi.mixed, n) } else { None };
+        let admissible = |x: Option<u64>| x == want || (alt.is_some() && x == alt);
         let got = D::new(n as usize);
         let gs = got.map(|d| d.size() as u64);
-        loc.check_at("new", gs == want, || {
-            format!("{} {}::new({n}): got size {gs:?}, minimal subgroup of this kind with >= {n} elements: {want:?}", fi.name, kind.name())
+        loc.class_if(alt.is_some() && alt != want, "new:general_two_admissible_sizes");
+        loc.class_if(gs != want && admissible(gs), "observed:general_new_prefers_the_mixed_radix_minimum");
+        loc.check_at("new", admissible(gs), || {
+            format!("{} {}::new({n}): got size {gs:?}, minimal subgroup of this kind with >= {n} elements: {want:?}{}", fi.name, kind.name(), alt.map(|a| format!(" (or mixed-radix minimum {a})")).unwrap_or_default())
         });
         let cs = D::compute_size_of_domain(n as usize).map(|x| x as u64);
-        loc.check_at("compute_size_of_domain", cs == want, || {
-            format!("{} {}::compute_size_of_domain({n}) = {cs:?} want {want:?}", fi.name, kind.name())
+        loc.check_at("compute_size_of_domain", admissible(cs), || {
+            format!("{} {}::compute_size_of_domain({n}) = {cs:?} want {want:?}{}", fi.name, kind.name(), alt.map(|a| format!(" (or mixed-radix minimum {a})")).unwrap_or_default())
         });
-        if let (Some(d), Some(w)) = (got, want) {
+        if let (Some(d), Some(w), true) = (got, want, gs == want) {
             // the domain obtained for n is the domain obtained when asking for its size
             // (whose generator order etc. is checked exhaustively in `domain/..`)
             let e = D::new(w as usize);
@@ -467,18 +571,44 @@ fn sweep_roots<F: PrimeField + FftField, M: Mdl<F>>(ctx: &mut Ctx, env: &Env<F, 
         loc.class_if(!want_some, "root:none_expected");
         loc.class_if(want_some && fi.adicity(n).1 > 0, "root:q_part");
         let got = F::get_root_of_unity(n);
-        if !loc.check_at("get_root_of_unity", got.is_some() == want_some, || {
-            format!("{}::get_root_of_unity({n}) is_some={} but a subgroup of order {n} of the declared shape exists: {want_some}", fi.name, got.is_some())
-        }) {
+        // for an n of the declared shape 2^i q^j a root must be returned; outside it the documented answer is
+        // None, but "a root of unity of order n, if one exists" also admits a genuine root: Some(r) is accepted
+        // when r has order exactly n (all prime divisors of n by trial division)
+        if want_some && !loc.check_at("get_root_of_unity", got.is_some(), || format!("{}::get_root_of_unity({n}) is None but a subgroup of order {n} of the declared shape exists", fi.name)) {
             return;
         }
         if let Some(r) = got {
             let r = m.to_m(&r);
-            let mut ok = m.pow(r, n) == m.one();
-            for l in fi.prime_divisors(n) {
-                ok &= m.pow(r, n / l) != m.one();
+            let primes: Option<Vec<u64>> = if want_some {
+                Some(fi.prime_divisors(n))
+            } else {
+                loc.class("observed:root_of_unity_outside_the_declared_shape");
+                let (mut t, mut ps, mut d) = (n, Vec::new(), 2u64);
+                while d * d <= t && d < (1 << 20) {
+                    if t % d == 0 {
+                        ps.push(d);
+                        while t % d == 0 {
+                            t /= d;
+                        }
+                    }
+                    d += 1;
+                }
+                if t > 1 && t < (1 << 40) {
+                    ps.push(t); // no divisor below 2^20: prime
+                    Some(ps)
+                } else if t == 1 {
+                    Some(ps)
+                } else {
+                    None // cofactor cannot be certified prime here: not judged
+                }
+            };
+            if let Some(primes) = primes {
+                let mut ok = n > 0 && m.pow(r, n) == m.one();
+                for l in primes {
+                    ok &= m.pow(r, n / l) != m.one();
+                }
+                loc.check_at("get_root_of_unity", ok, || format!("{}::get_root_of_unity({n}) = {r:?} does not have order exactly {n}", fi.name));
             }
-            loc.check_at("get_root_of_unity", ok, || format!("{}::get_root_of_unity({n}) = {r:?} does not have order exactly {n}", fi.name));
         }
     });
 }
@@ -490,6 +620,12 @@ fn sweep_domain<F: PrimeField + FftField, M: Mdl<F>, D: EvaluationDomain<F> + Se
     let m = &env.m;
     let sizes = fi.sizes(kind);
     let noff = env.offs.len() as u64;
+    // sizes above elem_b whose iteration end is checked: the three smallest ones and the largest one <= 2^20
+    let above: Vec<u64> = sizes.iter().copied().filter(|x| *x > env.cfg.elem_b && *x <= 1 << 20).collect();
+    let mut end_sizes: Vec<u64> = above.iter().copied().take(3).collect();
+    end_sizes.extend(above.last());
+    // distribute_powers: every length 0..=40 and 1023..=1025 on one toy field, a few lengths elsewhere
+    let dp_lens: Vec<usize> = if fi.name == "D97" { (0..=40).chain(1023..=1025).collect() } else { vec![0, 1, 5] };
     ctx.sweep(&format!("domain/{}/{}", fi.name, kind.name()), sizes.len() as u64 * noff, |i, loc| {
         let [io, is] = unrank(i, [noff, sizes.len() as u64]);
         let (size, off) = (sizes[is as usize], io as usize);
@@ -515,6 +651,23 @@ fn sweep_domain<F: PrimeField + FftField, M: Mdl<F>, D: EvaluationDomain<F> + Se
         let d = if off == 0 {
             let e = d0.get_coset(m.to_f(m.one()));
             loc.check_at("get_coset", e == Some(d0), || format!("{}: get_coset(1) differs from the subgroup domain", tag()));
+            // offset 0 is no coset: no panic, and never a domain whose offset is 0 (the library answers None)
+            loc.class("coset:zero_offset_requested");
+            let zf = m.to_f(m.zero());
+            for (what, r) in [
+                ("get_coset(0)", catch_unwind(AssertUnwindSafe(|| d0.get_coset(zf)))),
+                ("new_coset(size, 0)", catch_unwind(AssertUnwindSafe(|| D::new_coset(size as usize, zf)))),
+                ("new_coset(size - 1, 0)", catch_unwind(AssertUnwindSafe(|| D::new_coset(size as usize - 1, zf)))),
+            ] {
+                match r {
+                    Err(_) => loc.fail_at("get_coset_zero_offset", format!("{}: {what} panics", tag())),
+                    Ok(None) => loc.op(),
+                    Ok(Some(z)) => {
+                        loc.class("observed:zero_offset_gives_a_domain");
+                        loc.check_at("get_coset_zero_offset", m.to_m(&z.coset_offset()) != m.zero(), || format!("{}: {what} returned a domain with offset 0", tag()));
+                    },
+                }
+            }
             d0
         } else {
             let hf = m.to_f(h);
@@ -577,6 +730,19 @@ fn sweep_domain<F: PrimeField + FftField, M: Mdl<F>, D: EvaluationDomain<F> + Se
         if lim == size {
             let extra = it.next();
             loc.check_at("elements", extra.is_none(), || format!("{}: elements() yields more than size items", tag()));
+        } else if off < 2 && size <= 1 << 20 && (end_sizes.contains(&size)) {
+            // sizes above elem_b: the END of the iteration through nth (a few sizes up to 2^20, offsets 1 and g)
+            loc.class("elements:end_checked_with_nth");
+            let mut it = d.elements();
+            let last = it.nth(size as usize - 1).map(|x| m.to_m(&x));
+            let want_last = m.mul(h, m.pow(g, size - 1));
+            loc.check_at("elements", last == Some(want_last), || format!("{}: elements().nth(size-1) = {last:?} want h*g^(size-1) = {want_last:?}", tag()));
+            let extra = it.next();
+            loc.check_at("elements", extra.is_none(), || format!("{}: elements() yields more than size items", tag()));
+            if size <= 1 << 16 {
+                let skipped = d.elements().nth(size as usize);
+                loc.check_at("elements", skipped.is_none(), || format!("{}: elements().nth(size) is Some", tag()));
+            }
         }
         for j in [size - 1, size / 2, size / 2 + 1, size, size + 1, 2 * size + 3] {
             let want = m.mul(h, m.pow(g, j));
@@ -589,18 +755,19 @@ fn sweep_domain<F: PrimeField + FftField, M: Mdl<F>, D: EvaluationDomain<F> + Se
         let want_terms = vec![(0usize, m.sub(m.zero(), m.pow(h, size))), (size as usize, m.one())];
         loc.check_at("vanishing_polynomial", terms == want_terms, || format!("{}: vanishing_polynomial terms {terms:?} want {want_terms:?}", tag()));
         // distribute_powers
-        for len in [0usize, 1, 5] {
+        loc.class_if(dp_lens.len() > 3, "distribute_powers:all_lengths_0..=40_and_1023..=1025");
+        for &len in &dp_lens {
             let base: Vec<M::E> = (0..len).map(|t| m.from_u64(3 * t as u64 + 2)).collect();
             let mut v: Vec<F> = base.iter().map(|e| m.to_f(*e)).collect();
             D::distribute_powers(&mut v, m.to_f(h));
             let want: Vec<M::E> = base.iter().enumerate().map(|(t, e)| m.mul(*e, m.pow(h, t as u64))).collect();
             let got: Vec<M::E> = v.iter().map(|x| m.to_m(x)).collect();
-            loc.check_at("distribute_powers", got == want, || format!("{}: distribute_powers len {len}: {got:?} want {want:?}", tag()));
+            loc.check_at("distribute_powers", got == want, || format!("{}: distribute_powers len {len}: {} want {}", tag(), showv(&got), showv(&want)));
             let mut v: Vec<F> = base.iter().map(|e| m.to_f(*e)).collect();
             D::distribute_powers_and_mul_by_const(&mut v, m.to_f(g), m.to_f(h));
             let want: Vec<M::E> = base.iter().enumerate().map(|(t, e)| m.mul(m.mul(*e, h), m.pow(g, t as u64))).collect();
             let got: Vec<M::E> = v.iter().map(|x| m.to_m(x)).collect();
-            loc.check_at("distribute_powers_and_mul_by_const", got == want, || format!("{}: len {len}: {got:?} want {want:?}", tag()));
+            loc.check_at("distribute_powers_and_mul_by_const", got == want, || format!("{}: len {len}: {} want {}", tag(), showv(&got), showv(&want)));
         }
     });
 }
@@ -673,8 +840,25 @@ fn check_ifft<F: PrimeField + FftField, M: Mdl<F>, D: EvaluationDomain<F> + Send
     want: Option<&[M::E]>,
 ) {
     let n = pts.len();
-    let site = if e.len() == n { "ifft" } else { "ifft_short_input" };
     let ef: Vec<F> = e.iter().map(|x| m.to_f(*x)).collect();
+    if e.len() != n {
+        // an evaluation vector shorter than the domain is not an input the property (or the rustdoc of ifft,
+        // "Compute a IFFT") speaks about: not judged; what the library does is counted
+        loc.op();
+        match catch_unwind(AssertUnwindSafe(|| d.ifft(&ef))) {
+            Err(_) => loc.class("observed:ifft_short_input_panics"),
+            Ok(c) => {
+                let cm: Vec<M::E> = c.iter().map(|x| m.to_m(x)).collect();
+                let padded = match want {
+                    Some(w) => cm.as_slice() == w,
+                    None => cm.len() == n && (0..n).all(|j| horner::<F, M>(m, &cm, pts[j]) == if j < e.len() { e[j] } else { m.zero() }),
+                };
+                loc.class(if padded { "observed:ifft_short_input_is_zero_padded" } else { "observed:ifft_short_input_other_result" });
+            },
+        }
+        return;
+    }
+    let site = "ifft";
     let c = d.ifft(&ef);
     let cm: Vec<M::E> = c.iter().map(|x| m.to_m(x)).collect();
     let ok = match want {
@@ -1267,7 +1451,19 @@ fn sweep_reindex<F: PrimeField + FftField, M: Mdl<F>, D: EvaluationDomain<F> + S
         let mut want: Vec<u64> = (0..s).map(|k| k * period).collect();
         want.extend((0..n).filter(|j| j % period != 0));
         let got: Vec<u64> = (0..n).map(|idx| outer.reindex_by_subdomain(sub, idx as usize) as u64).collect();
-        loc.check_at("reindex_by_subdomain", got == want, || format!("{} {} outer size={n} sub size={s}: got {} want {}", fi.name, kind.name(), showv(&got), showv(&want)));
+        // documented: the first |sub| indices are the sub-domain's elements; the rest only has to enumerate the
+        // remaining positions (a permutation of 0..size); their ascending order is an implementation choice that
+        // is observed, and only demanded under VERIF_EXTRAS
+        let mut sorted = got.clone();
+        sorted.sort();
+        let perm = sorted == (0..n).collect::<Vec<u64>>();
+        loc.check_at("reindex_by_subdomain", perm && got[..s as usize] == want[..s as usize], || {
+            format!("{} {} outer size={n} sub size={s}: got {} is not a permutation of 0..{n} starting with the sub-domain's positions {}", fi.name, kind.name(), showv(&got), showv(&want[..s as usize]))
+        });
+        loc.class(if got == want { "observed:reindex_rest_in_ascending_order" } else { "observed:reindex_rest_in_other_order" });
+        if std::env::var("VERIF_EXTRAS").is_ok() {
+            loc.check_at("reindex_by_subdomain_order", got == want, || format!("{} {} outer size={n} sub size={s}: got {} want {}", fi.name, kind.name(), showv(&got), showv(&want)));
+        }
         // and the first |sub| positions really are the sub-domain's elements
         let ok = (0..s).all(|k| m.to_m(&outer.element(want[k as usize] as usize)) == sub_pts[k as usize]);
         loc.check_at("reindex_by_subdomain", ok, || format!("{} {} outer size={n} sub size={s}: outer.element(k*period) != sub.element(k)", fi.name, kind.name()));
@@ -1308,10 +1504,14 @@ fn run_field<F: PrimeField + FftField, M: Mdl<F>>(ctx: &mut Ctx, env: &Env<F, M>
 }
 
 fn toy<F: PrimeField + FftField>(ctx: &mut Ctx, name: &'static str) -> Env<F, Zp> {
+    let sb = ctx.t(64, 256);
+    toy_with::<F>(ctx, name, sb)
+}
+fn toy_with<F: PrimeField + FftField>(ctx: &mut Ctx, name: &'static str, small_b: u64) -> Env<F, Zp> {
     let fi = finfo::<F>(ctx, name, true);
     let p = F::MODULUS.as_ref()[0];
     let cfg = Cfg {
-        small_b: ctx.t(64, 256),
+        small_b,
         large_b: ctx.t(1 << 13, 1 << 15),
         dense_b: ctx.t(1 << 11, 1 << 13),
         poly_b: 32,
@@ -1345,13 +1545,21 @@ fn main() {
         "new:n=size+1",
         "fft:degree_aware_len_not_pow2",
         "size>MIN_INPUT_SIZE_FOR_PARALLELIZATION",
+        "mixed:q=5_two_q_passes",
+        "mixed:q=7_two_q_passes",
+        "coset:zero_offset_requested",
+        "elements:end_checked_with_nth",
+        "distribute_powers:all_lengths_0..=40_and_1023..=1025",
+        "new:general_two_admissible_sizes",
     ]);
+    validate_extra_fields(&mut ctx);
+    validate_threshold_copies(&mut ctx);
     ctx.assume("oracle: u64/u128 arithmetic mod p (toy fields) with F::from(u64) / into_bigint() as trusted conversions; for the shipped 255..753-bit fields the model arithmetic is the field's own +,-,*,inverse (C01) inside naive O(n^2) definitions");
     ctx.assume("transforms are linear and their control flow depends only on (domain, input length): unit vectors e_i for every i < L determine the map for (domain, L); dense vectors and all vectors of length <= 4 over F_17 are checked in addition");
     ctx.assume("domain order is h*g^j with g = group_gen(); element(j), elements() and the exact order of g are checked separately for every domain size");
-    ctx.assume("documented conventions encoded, not flagged: inputs longer than the domain are outside the property; GeneralEvaluationDomain prefers the radix-2 domain and falls back to mixed-radix only when 2^TWO_ADICITY < n; ifft on a vector shorter than the domain zero-pads it (site ifft_short_input)");
+    ctx.assume("documented conventions encoded, not flagged: inputs longer than the domain are outside the property; GeneralEvaluationDomain: the radix-2 minimum (documented preference) or the mixed-radix minimum are both accepted as 'minimal for its kind'; ifft on a vector shorter than the domain is not judged (counted in classes observed:ifft_short_input_*); get_root_of_unity(n) for n outside 2^i q^j may be None or a root of exact order n; reindex_by_subdomain: only 'permutation whose first |sub| entries are the sub-domain' is demanded (the order of the rest under VERIF_EXTRAS); a zero coset offset must not panic and must not yield a domain with offset 0");
     ctx.assume("harness is built without the `parallel` feature (thread-count independence is C14)");
-    ctx.bound("toy_fields", "F_17, 97, 193, 241, 257, 433, 769, 3889, 7681, 12289, 40961, 65537, Goldilocks");
+    ctx.bound("toy_fields", "F_17, 97, 193, 241, 257, 433, 769, 3889, 7681, 12289, 40961, 65537, Goldilocks; F_401 (2^4 5^2) and F_197 (2^2 7^2) declared in c07.rs with fft_small up to size 100 (quick) / 400 (thorough)");
     ctx.bound("shipped_fields", "bls12_381 Fr, bn384_small_two_adicity Fq and Fr, mnt4_753 Fr, mnt6_753 Fr");
     ctx.bound("construction", "every n in 0..=max+2 when the largest subgroup of the kind has <= 2^17 elements, else 0..=130 and size-1,size,size+1 for every size; plus 2max, 2^40, 2^62, 2^63; get_root_of_unity(n) for every n <= min(2max+2, 2^17+2) plus size-1,size,size+1,2size,3size");
     ctx.bound("offsets", "1, g, g^2, 2, -1 (g = multiplicative generator)");
@@ -1389,6 +1597,14 @@ fn main() {
     toy_field!(tf::D40961, "D40961");
     toy_field!(tf::D65537, "D65537");
     toy_field!(tf::DGold, "DGold");
+    // q = 5 and q = 7 with two q-ary passes: exhaustive lengths / unit vectors up to size 100 (quick) / all sizes
+    {
+        let sb = ctx.t(100, 400);
+        let env = toy_with::<D401>(&mut ctx, "D401", sb);
+        run_field(&mut ctx, &env);
+        let env = toy_with::<D197>(&mut ctx, "D197", sb);
+        run_field(&mut ctx, &env);
+    }
 
     macro_rules! shipped_field {
         ($t:ty, $name:expr, $sq:expr, $st:expr, $lq:expr, $lt:expr, $dq:expr, $dt:expr) => {{
